@@ -61,6 +61,10 @@ Record gcase := mkGCase {
   gc_centers : list (list dy);                (* evaluate_on_element_centers: component -> element *)
   gc_vertices : list (list dy);               (* evaluate_on_vertices: component -> vertex *)
   gc_third : dy;                              (* the double 1.0/3 *)
+  (* vectorised callable: function_data as the library received it, position in the support -> quadrature point number
+     -> component (real part, imaginary part), and the projections it produced; empty lists = not run *)
+  gc_fdata_re : list (list (list dy)); gc_projv_re : list dy;
+  gc_fdata_im : list (list (list dy)); gc_projv_im : list dy;
   gc_tol : dy }.
 
 Definition index_of (p : P2) (rule : list (P2 * dy)) : nat :=
@@ -79,6 +83,9 @@ Definition gf_f (c : gcase) : nat -> P2 -> nat -> dy :=
 Definition vec_ok (tol : dy) (n : nat) (model : nat -> dy) (impl : list dy) : bool :=
   Nat.eqb (length impl) n && forallb (fun k => dclose tol (model k) (nth k impl 0)) (seq 0 n).
 
+Definition fdata_of (t : list (list (list dy))) : nat -> nat -> nat -> dy :=
+  fun pos k d => nth d (nth k (nth pos t []) []) 0.
+
 Definition gcase_diag (c : gcase) : list bool :=
   let nel := gd_nel (gc_grid c) in
   let Sp := to_space (gc_space c) in
@@ -93,7 +100,13 @@ Definition gcase_diag (c : gcase) : list bool :=
     forallb (fun d => vec_ok (gc_tol c) (gc_nvert c)
                              (fun v => vertex_num nel els (vol_of (gc_gx c)) Sp ev (gf_coef c) v d
                                        - nth v (nth d (gc_vertices c) []) 0 * vertex_den nel els (vol_of (gc_gx c)) Sp v)
-                             (repeat 0 (gc_nvert c))) (seq 0 dim) ].
+                             (repeat 0 (gc_nvert c))) (seq 0 dim);
+    match gc_fdata_re c with [] => true | t =>
+      vec_ok (gc_tol c) (length (gc_projv_re c)) (project_vectorized nel dim (gc_rule c) intel Sp ev (fdata_of t))
+             (gc_projv_re c) end;
+    match gc_fdata_im c with [] => true | t =>
+      vec_ok (gc_tol c) (length (gc_projv_im c)) (project_vectorized nel dim (gc_rule c) intel Sp ev (fdata_of t))
+             (gc_projv_im c) end ].
 Definition gcase_ok (c : gcase) : bool := forallb (fun b => b) (gcase_diag c).
 
 (* MultiplicationOperator: mode 0 = 'component' (all three spaces of the same codomain dimension), 1 = 'inner'
